@@ -115,11 +115,90 @@ fn main() {
                     std::process::exit(2);
                 }
             };
+            if let Ok(path) = std::env::var("FQV_JSON") {
+                std::process::exit(report::finish_json(&col, &path).exit_code);
+            }
+            release_subject_pass(&ctx, &col);
             let fin = report::finish(&ctx, &col, t0.elapsed().as_secs_f64());
             std::process::exit(fin.exit_code);
         }
         _ => usage(),
     }
+}
+
+/// Properties that are conditional on a returned symbol count a panicking build as "skipped" (the panic is C10's
+/// and C05's finding). The harness compiles the subject with debug assertions and overflow checks, so a defect that
+/// corrupts, say, the number of data modules trips the crate's own `debug_assert` and is never seen by the oracle of
+/// the property it breaks — although a user's release build returns the broken symbol. When a check skipped cases for
+/// that reason it is repeated against the subject as a release build makes it (profile `relsubject`: no debug
+/// assertions, wrapping arithmetic), in a child process under a time and address-space limit, and the violations
+/// found there are reported with that qualification. On a tree without panics this costs nothing.
+fn release_subject_pass(ctx: &Ctx, col: &report::Collector) {
+    use std::sync::atomic::Ordering;
+    const CONDITIONAL: [&str; 11] = ["C01", "C02", "C03", "C04", "C05", "C06", "C08", "C09", "C11", "C15", "C16"];
+    let skipped = col.skipped_panics.load(Ordering::Relaxed);
+    let panics_seen = skipped > 0 || col.violations.lock().unwrap().iter().any(|v| v.key.ends_with("/panic") || v.key.contains("rejected"));
+    if !CONDITIONAL.contains(&ctx.prop.as_str()) || !panics_seen || std::env::var("FQV_NO_RELPASS").is_ok() {
+        return;
+    }
+    let dir = &ctx.verif_dir;
+    let target = std::env::var("CARGO_TARGET_DIR").unwrap_or_else(|_| format!("{}/target", dir));
+    let note = |col: &report::Collector, s: String| {
+        eprintln!("NOTE: {}", s);
+        col.set("release_subject_pass", serde_json::json!({"ran": false, "why": s}));
+    };
+    let b = std::process::Command::new("cargo").args(["build", "--profile", "relsubject", "--offline"]).current_dir(format!("{}/harness", dir)).output();
+    match b {
+        Ok(o) if o.status.success() => {}
+        Ok(o) => return note(col, format!("release-subject build failed: {}", String::from_utf8_lossy(&o.stderr).lines().filter(|l| l.starts_with("error")).take(3).collect::<Vec<_>>().join(" | "))),
+        Err(e) => return note(col, format!("cargo not runnable: {}", e)),
+    }
+    let bin = format!("{}/relsubject/fqv", target);
+    let out = format!("{}/scratch/relpass-{}-{}.json", dir, ctx.prop, std::process::id());
+    let limit_s: u64 = if ctx.tier.thorough() { 3 * 3600 } else { 600 };
+    // address-space limit 24 GiB: a wrapped length must not take the machine down
+    let cmdline = format!("ulimit -v 25165824; exec '{}' check {} --tier {}", bin, ctx.prop, ctx.tier.name());
+    let child = std::process::Command::new("sh").arg("-c").arg(&cmdline).env("FQV_CHILD", "1").env("FQV_JSON", &out).env("FQV_NO_RELPASS", "1").env("FQV_TRACE", "").stdout(std::process::Stdio::null()).stderr(std::process::Stdio::null()).spawn();
+    let mut child = match child {
+        Ok(c) => c,
+        Err(e) => return note(col, format!("cannot start the release-subject pass: {}", e)),
+    };
+    let t0 = std::time::Instant::now();
+    let status = loop {
+        match child.try_wait() {
+            Ok(Some(st)) => break Some(st),
+            Ok(None) if t0.elapsed().as_secs() > limit_s => {
+                let _ = child.kill();
+                let _ = child.wait();
+                break None;
+            }
+            Ok(None) => std::thread::sleep(std::time::Duration::from_millis(100)),
+            Err(_) => break None,
+        }
+    };
+    let txt = std::fs::read_to_string(&out).ok();
+    let _ = std::fs::remove_file(&out);
+    let v: serde_json::Value = match (status, txt.and_then(|t| serde_json::from_str(&t).ok())) {
+        (Some(st), Some(v)) if st.success() => v,
+        (st, _) => return note(col, format!("release-subject pass did not complete (status {:?}): a release build of the subject hangs, aborts or exhausts memory on some case of this check (see C10)", st.map(|s| s.code()))),
+    };
+    let mut n = 0u64;
+    for x in v["violations"].as_array().into_iter().flatten() {
+        let key = x["key"].as_str().unwrap_or("").to_string();
+        if key.ends_with("/panic") {
+            continue;
+        }
+        let mut case = x["case"].clone();
+        if case.is_object() {
+            case["subject_build"] = serde_json::json!("release");
+        }
+        for _ in 0..x["cases"].as_u64().unwrap_or(1).min(2000) {
+            col.violation((900, n), key.clone(), format!("(subject built as a release build: no debug assertions, wrapping arithmetic; the checked build panics on this case) {}", x["what"].as_str().unwrap_or("")), case.clone());
+        }
+        n += 1;
+    }
+    col.set("release_subject_pass", serde_json::json!({"ran": true, "because_skipped_subject_panics": skipped, "evaluations": v["evaluations"], "violation_keys": n, "skipped_subject_panics_there": v["skipped_subject_panics"], "wall_s": t0.elapsed().as_secs()}));
+    col.space(serde_json::json!({"name": "release-subject pass", "cases": v["evaluations"], "exhaustive": true, "what": "the whole check repeated against the subject without debug assertions and overflow checks, because cases were skipped on subject panics", "violations": v["violations_total"]}));
 }
 
 /// The supervising parent: runs the check in a child process so that an abort (stack overflow,
